@@ -67,6 +67,20 @@ def avp_order_check(chk, fx, a, config):
             evs = b.events()[H.ntrace:]
             rn = [e for e in evs if e[0] == "range_next"]
             calls = [r for r in seen["recv"] if r[0] >= H.ntrace]
+            if not rn and calls and isinstance(calls[-1][2], tuple) and calls[-1][2][0] == "ei":
+                # no iterator: the element index is a running position of the loop's own (a slice peeled from the front, a
+                # hand-kept counter) - it must start at 0 and move up by one per round
+                idx = calls[-1][2][1]
+                leaves = {eng2.hsym(lid, c_, kp_): (c_, kp_) for (c_, kp_), k_ in havoc.items() if k_ == "int"}
+                hs = [s_ for s_ in idx.t if s_ in leaves]
+                if len(hs) == 1 and idx.t[hs[0]] == 1:
+                    leaf = leaves[hs[0]]
+                    e0 = eng2._entry.get((lid, leaf))
+                    nb = eng2.leaf_lin(b, *leaf)
+                    if e0 is not None and nb is not None and eng2.ent(H, c_eq(idx - Lin.sym(hs[0]) + e0, Lin.const(0))) \
+                            and eng2.ent(b, c_eq(nb, Lin.sym(hs[0]) + 1)):
+                        seen["iters"].append((False, idx, calls[-1], b))
+                        continue
             seen["iters"].append((rn[-1][1] if rn else None, rn[-1][2].lin if rn else None, calls[-1] if calls else None, b))
     eng2.hooks["loop"] = on_loop
     eng2.hooks["call"] = on_call
